@@ -26,9 +26,9 @@ import (
 func batch(seed uint64, tier, which string) []program {
 	r := hk.NewRand(seed*1000003 + map[string]uint64{"inproc": 17, "race": 91}[which])
 	thorough := tier == "thorough"
-	per := map[string]int{"inproc": 36, "race": 24}[which]
+	per := map[string]int{"inproc": 36, "race": 70}[which]
 	if thorough {
-		per = map[string]int{"inproc": 420, "race": 240}[which]
+		per = map[string]int{"inproc": 420, "race": 900}[which]
 	}
 	var ps []program
 	for round := 0; round < per; round++ {
